@@ -153,6 +153,59 @@ def invariant_core():
     return cases
 
 
+def compose_interrupt_core():
+    """try/interrupt in a COMPOSE block whose blocks invoke sub-scenarios: a pre-empted `do A()` must resume
+    exactly where it stopped even when the handler invoked scenarios itself; while it is suspended A's compose
+    block does not run but its monitors and records go on; sub-scenarios under an abandoned block (abort,
+    do-for limit) are stopped."""
+    cases = []
+    beh = {"pre": [], "inv": [], "body": [["while", "T", [["take", 1]]]]}
+    mon = {"pre": [], "inv": [], "body": [["while", "T", [["log", "m"], ["wait"]]]]}
+
+    def sd(**kw):
+        d = {"pre": [], "termWhen": [], "termSimWhen": [], "termAfter": [], "records": [], "monitors": [],
+             "hascompose": False, "compose": [], "objs": []}
+        d.update(kw)
+        return d
+
+    A = sd(hascompose=True, compose=[["log", "a0"], ["wait"], ["log", "a1"], ["wait"], ["log", "a2"], ["wait"], ["log", "a3"], ["wait"], ["log", "a4"]],
+           records=[["rec", "ra"]], monitors=[2])
+    A2 = sd(termAfter=[4, "steps"], records=[["rec", "ra"]])
+    B = sd(hascompose=True, compose=[["log", "b0"], ["wait"], ["log", "b1"], ["wait"]], records=[["rec", "rb"]])
+    bodies = [
+        [["sdo", [2]], ["log", "afterA"]],
+        [["sdofor", [2], 3, "steps"], ["log", "afterA"]],
+        [["log", "pre"], ["wait"], ["sdo", [2, 3]], ["log", "afterAB"]],
+    ]
+    handlers = [
+        [["sdo", [3]], ["log", "hd"]],
+        [["abort"]],
+        [["wait"], ["log", "hw"], ["wait"]],
+        [["sdo", [3]], ["abort"]],
+        [["sdofor", [3], 1, "steps"]],
+    ]
+    atabs = [[False, False, True, False], [False, True, True, False, False], [True, False], [False, False, False, True, True, True, False],
+             [False]]
+    btabs = [[False], [False, False, False, True, False]]
+    for ai, Adef in enumerate((A, A2)):
+        for body in bodies:
+            for h1 in handlers:
+                for h2 in (None, handlers[2], handlers[1]):
+                    for ta in atabs:
+                        for tb in (btabs if h2 else btabs[:1]):
+                            if (len(cases) + ai) % 2 and h2:      # thin the two-handler block
+                                continue
+                            hs = [["a", h1]] + ([["b", h2]] if h2 else [])
+                            top = [["try", body, hs], ["log", "after"], ["wait"], ["wait"]]
+                            cases.append({
+                                "defs": [beh, mon], "agents": [1], "sdefs": [sd(hascompose=True, compose=top), Adef, B], "top": 1,
+                                "monitors": [2], "records": [], "termWhen": [], "termSimWhen": [], "termAfter": [],
+                                "maxSteps": 10, "dt": [1, 1],
+                                "table": {"T": [True], "F": [False], "a": ta, "b": tb}, "sched": [[1]], "impl": 0,
+                            })
+    return cases
+
+
 def _runs_sub_under_wrapper(case):
     """Trigger of the named deviation invimpl: a behaviour with invariants runs a sub-behaviour under
     do-for / do-until or inside a try/interrupt statement."""
@@ -209,7 +262,10 @@ def main(tier):
         core = core[seed() % 2 :: 2]
     n = 100 if tier == "quick" else 1500
     rand = gen_dynamic.generate(seed() * 7907 + 13, n, "interrupt")
-    cases = core + nested_flow_core() + invariant_core() + rand
+    ccore = compose_interrupt_core()
+    if tier == "quick":
+        ccore = ccore[seed() % 3 :: 3]
+    cases = core + nested_flow_core() + invariant_core() + ccore + rand
     global_rows = c12.run_batch(ck, cases, need_actions=["Setup", "BehaviorResume", "ExecuteActions", "Finish"])
     # as-implemented twins (spec deviation UnwindReturnImpl) for the cases that satisfy its trigger
     trig = [flow_triggers(c) for c in cases]
